@@ -121,26 +121,148 @@ fn parent_refuses() -> bool {
     false
 }
 
+// ----- block registry ---------------------------------------------------------
+//
+// While a registry is open (C19's ledger runs), the parent allocator knows
+// which blocks it has handed out. A block that is given back is not returned
+// to the system at once but kept in quarantine until the registry is closed:
+// its address is not reused and its memory stays readable, so a harness can ask
+// whether a block it still owns was released behind its back, and a second
+// release of the same block is recorded instead of corrupting the heap.
+
+struct Registry {
+    live: std::collections::BTreeMap<usize, (usize, usize)>,
+    quarantine: Vec<(usize, usize, usize)>,
+    quarantined_bytes: usize,
+    anomalies: Vec<String>,
+}
+
+static REGISTRY: std::sync::Mutex<Option<Registry>> = std::sync::Mutex::new(None);
+
+const QUARANTINE_CAP: usize = 256 << 20;
+
+fn reg() -> std::sync::MutexGuard<'static, Option<Registry>> {
+    REGISTRY.lock().unwrap_or_else(|e| e.into_inner())
+}
+
+/// Start tracking the blocks handed out by the parent allocator.
+pub fn registry_begin() {
+    *reg() = Some(Registry {
+        live: Default::default(),
+        quarantine: Vec::new(),
+        quarantined_bytes: 0,
+        anomalies: Vec::new(),
+    });
+}
+
+/// Stop tracking: quarantined blocks go back to the system. Returns what the
+/// parent allocator was asked to do that no correct caller asks (a block
+/// released twice, or one it never handed out).
+pub fn registry_end() -> Vec<String> {
+    let r = reg().take();
+    match r {
+        Some(r) => {
+            // Blocks still live belong to a history that ended early: released too.
+            let live = r.live.into_iter().map(|(p, (size, align))| (p, size, align));
+            for (p, size, align) in r.quarantine.into_iter().chain(live) {
+                unsafe {
+                    std::alloc::System.dealloc(p as *mut u8, Layout::from_size_align_unchecked(size, align))
+                };
+            }
+            r.anomalies
+        }
+        None => Vec::new(),
+    }
+}
+
+/// Is this block still owned by whoever got it from the parent allocator?
+/// (true when no registry is open)
+pub fn registry_is_live(ptr: usize) -> bool {
+    match reg().as_ref() {
+        Some(r) => r.live.contains_key(&ptr),
+        None => true,
+    }
+}
+
+fn reg_insert(ptr: *mut u8, layout: Layout) {
+    if ptr.is_null() {
+        return;
+    }
+    if let Some(r) = reg().as_mut() {
+        r.live.insert(ptr as usize, (layout.size(), layout.align()));
+    }
+}
+
 unsafe impl GlobalAlloc for System {
     unsafe fn alloc(&self, layout: Layout) -> *mut u8 {
         if parent_refuses() {
             return std::ptr::null_mut();
         }
-        std::alloc::System.alloc(layout)
+        let p = std::alloc::System.alloc(layout);
+        reg_insert(p, layout);
+        p
     }
     unsafe fn dealloc(&self, ptr: *mut u8, layout: Layout) {
-        std::alloc::System.dealloc(ptr, layout)
+        let mut g = reg();
+        match g.as_mut() {
+            None => {
+                drop(g);
+                std::alloc::System.dealloc(ptr, layout)
+            }
+            Some(r) => match r.live.remove(&(ptr as usize)) {
+                Some((size, align)) => {
+                    r.quarantine.push((ptr as usize, size, align));
+                    r.quarantined_bytes += size;
+                    while r.quarantined_bytes > QUARANTINE_CAP && r.quarantine.len() > 1 {
+                        let (p, s, a) = r.quarantine.remove(0);
+                        r.quarantined_bytes -= s;
+                        std::alloc::System.dealloc(p as *mut u8, Layout::from_size_align_unchecked(s, a));
+                    }
+                }
+                None => {
+                    if r.anomalies.len() < 8 {
+                        r.anomalies.push(format!(
+                            "the parent allocator was asked to release a block of {} bytes that is not live (released twice, or never handed out)",
+                            layout.size()
+                        ));
+                    }
+                }
+            },
+        }
     }
     unsafe fn alloc_zeroed(&self, layout: Layout) -> *mut u8 {
         if parent_refuses() {
             return std::ptr::null_mut();
         }
-        std::alloc::System.alloc_zeroed(layout)
+        let p = std::alloc::System.alloc_zeroed(layout);
+        reg_insert(p, layout);
+        p
     }
     unsafe fn realloc(&self, ptr: *mut u8, layout: Layout, new_size: usize) -> *mut u8 {
         if parent_refuses() {
             return std::ptr::null_mut();
         }
-        std::alloc::System.realloc(ptr, layout, new_size)
+        {
+            let mut g = reg();
+            if let Some(r) = g.as_mut() {
+                if !r.live.contains_key(&(ptr as usize)) {
+                    if r.anomalies.len() < 8 {
+                        r.anomalies.push(format!(
+                            "the parent allocator was asked to resize a block of {} bytes that is not live",
+                            layout.size()
+                        ));
+                    }
+                    return std::ptr::null_mut();
+                }
+            }
+        }
+        let p = std::alloc::System.realloc(ptr, layout, new_size);
+        if !p.is_null() {
+            if let Some(r) = reg().as_mut() {
+                r.live.remove(&(ptr as usize));
+                r.live.insert(p as usize, (new_size, layout.align()));
+            }
+        }
+        p
     }
 }
